@@ -1,8 +1,9 @@
 (* The functions GENERATED from the source of tracklib/util/geometry.py (harness/py2coq_num.py, on every run) are, for EVERY number structure
    (the reals of the theorems, the binary64 instance run against the implementation), the hand-written functions of Model/Geom.v and
    Model/SimplifyG.v.  Compiled on every run against the text generated from /repo's current geometry.py. *)
-From Coq Require Import Bool List Reals.
-From TL Require Import Model.Num Model.Geom Model.SimplifyG Proofs.GeomAlg Proofs.GeomProj Proofs.Geom_bridge Proofs.MapMatch_sound Props.C16 Props.C20.
+From Coq Require Import Bool List Reals Lia String PrimFloat.
+Import ListNotations.
+From TL Require Import Model.Num Model.Geom Model.SimplifyG Proofs.GeomAlg Proofs.GeomProj Proofs.Geom_bridge Proofs.PolyMin Proofs.Poly_bridge Proofs.MapMatch_sound Props.C16 Props.C20.
 From TLGen Require Import GeomGen.
 
 Section Eq.
@@ -40,5 +41,123 @@ Theorem gen_proj_segment_sound x1 y1 x2 y2 x y :
   (exists mu, (0 <= mu <= 1)%R /\ (px, py) = on_seg x1 y1 x2 y2 mu) /\ d = dist x y px py.
 Proof. intros s. rewrite gen_proj_segment_eq. exact (C20_any_orientation_sound x1 y1 x2 y2 x y). Qed.
 
+
+(* ---- proj_polyligne: the loop translated from the source (a body function on the loop-carried variables, applied `len(Xp) - 1` times
+   with the index counting up) is the model's scan over consecutive vertices, for EVERY number structure, provided every distance the loop
+   compares with the sentinel `distmin = 1e309` is below it (binary64: every leg distance is finite; reals: any bound of the leg distances).
+   Variables that are only assigned inside the loop come back as options: None is Python's UnboundLocalError, the model's None. ---- *)
+(* the float literals of the source, in order of appearance, are the ones the model was written for *)
+Lemma gen_proj_polyligne_literals : gen_proj_polyligne_consts = ["inf"; "1e-16"]%string.
+Proof. reflexivity. Qed.
+
+Local Open Scope nat_scope.
+Section PolyEq.
+Context {T : Type} (N : Num T).
+Context (inf eps x y : T).
+
+(* the pairs of consecutive vertices *)
+Fixpoint legs (pts : list (T * T)) : list ((T * T) * (T * T)) :=
+  match pts with
+  | p1 :: ((p2 :: _) as r) => (p1, p2) :: legs r
+  | _ => []
+  end.
+
+Definition leg_dist (l : (T * T) * (T * T)) : T :=
+  let '(p1, p2) := l in
+  fst (fst (Geom.proj_segment N {| sx1 := fst p1; sy1 := snd p1; sx2 := fst p2; sy2 := snd p2 |} x y)).
+
+(* every distance the loop compares with the sentinel is below it *)
+Definition below_sentinel (pts : list (T * T)) : Prop := Forall (fun l => ltb N (leg_dist l) inf = true) (legs pts).
+
+Definition embed (a : option (T * T * T * nat)) : T * option T * option T * option nat :=
+  match a with
+  | None => (inf, None, None, None)
+  | Some (d, xp, yp, i) => (d, Some xp, Some yp, Some i)
+  end.
+
+Lemma nth_pre {A B} (f : A -> B) (pre : list A) a r d : nth (List.length pre) (map f pre ++ a :: r) d = a.
+Proof. rewrite app_nth2; rewrite map_length; [now rewrite PeanoNat.Nat.sub_diag | lia]. Qed.
+
+Lemma nth_pre_S {A B} (f : A -> B) (pre : list A) a b r d : nth (S (List.length pre)) (map f pre ++ a :: b :: r) d = b.
+Proof. rewrite app_nth2; rewrite map_length; [now replace (S (List.length pre) - List.length pre) with 1 by lia | lia]. Qed.
+
+Lemma body_step pre p1 p2 r a :
+  ltb N (leg_dist (p1, p2)) inf = true ->
+  let pts := pre ++ p1 :: p2 :: r in
+  gen_proj_polyligne_body N inf eps (map fst pts) (map snd pts) x y (List.length pre) (embed a)
+  = embed (poly_step N eps x y (List.length pre) a p1 p2).
+Proof.
+  intros Hd pts. unfold gen_proj_polyligne_body, pts.
+  rewrite !map_app. cbn [map].
+  rewrite !nth_pre, !nth_pre_S.
+  destruct p1 as [x1 y1], p2 as [x2 y2]. unfold poly_step. cbn [fst snd] in *.
+  destruct (ltb N (add N (abs N (sub N x1 x2)) (abs N (sub N y1 y2))) eps) eqn:Hs.
+  - destruct a as [[[[dm ?] ?] ?]|]; reflexivity.
+  - change (gen_proj_segment N x1 y1 x2 y2 x y) with (Geom.proj_segment N {| sx1 := x1; sy1 := y1; sx2 := x2; sy2 := y2 |} x y).
+    unfold leg_dist in Hd. cbn [fst snd] in Hd.
+    destruct (Geom.proj_segment N {| sx1 := x1; sy1 := y1; sx2 := x2; sy2 := y2 |} x y) as [[d xp] yp]. cbn [fst] in Hd.
+    destruct a as [[[[dm ?] ?] ?]|]; cbn [embed].
+    + destruct (ltb N d dm); reflexivity.
+    + rewrite Hd. reflexivity.
+Qed.
+
+Lemma loop_scan pts : forall pre a,
+  below_sentinel pts ->
+  let all := pre ++ pts in
+  gen_proj_polyligne_loop N inf eps (map fst all) (map snd all) x y (List.length pts - 1) (List.length pre) (embed a)
+  = embed (poly_scan N eps x y (List.length pre) a pts).
+Proof.
+  induction pts as [|p1 r IH]; intros pre a Hb all; [reflexivity|].
+  destruct r as [|p2 r]; [reflexivity|].
+  unfold below_sentinel in Hb. cbn [legs] in Hb. inversion Hb as [|? ? Hd Hr]; subst.
+  cbn [List.length]. replace (S (S (List.length r)) - 1) with (S (S (List.length r) - 1)) by lia.
+  cbn [gen_proj_polyligne_loop poly_scan]. unfold all.
+  rewrite (body_step pre p1 p2 r a Hd).
+  specialize (IH (pre ++ [p1]) (poly_step N eps x y (List.length pre) a p1 p2) Hr).
+  cbv zeta in IH. rewrite <- app_assoc in IH. cbn [app] in IH.
+  rewrite app_length in IH. cbn [List.length] in IH. replace (List.length pre + 1) with (S (List.length pre)) in IH by lia.
+  exact IH.
+Qed.
+
+Theorem gen_proj_polyligne_eq pts :
+  below_sentinel pts ->
+  gen_proj_polyligne N inf eps (map fst pts) (map snd pts) x y = embed (Geom.proj_polyligne N eps pts x y).
+Proof.
+  intros Hb. unfold gen_proj_polyligne, Geom.proj_polyligne. rewrite map_length.
+  pose proof (loop_scan pts [] None Hb) as H. cbv zeta in H. cbn [app List.length embed] in H. rewrite H.
+  destruct (poly_scan N eps x y 0 None pts) as [[[[d xp] yp] i]|]; reflexivity.
+Qed.
+End PolyEq.
+
+(* C20's polyline theorem restated for the generated function (real-number instance) *)
+Theorem gen_proj_polyligne_nearest (inf eps : R) pts (x y : R) :
+  below_sentinel RNum inf x y pts ->
+  (forall j, (S j < List.length pts)%nat -> skipped eps (nth j pts (0,0)%R) (nth (S j) pts (0,0)%R) = false ->
+             fst (nth j pts (0,0)%R) <> fst (nth (S j) pts (0,0)%R)) ->
+  forall d xp yp i, gen_proj_polyligne RNum inf eps (map fst pts) (map snd pts) x y = (d, Some xp, Some yp, Some i) ->
+      (S i < List.length pts)%nat /\ skipped eps (nth i pts (0,0)%R) (nth (S i) pts (0,0)%R) = false /\
+      (let A := nth i pts (0,0)%R in let B := nth (S i) pts (0,0)%R in
+       exists mu, (0 <= mu <= 1)%R /\ (xp, yp) = on_seg (fst A) (snd A) (fst B) (snd B) mu) /\
+      d = dist x y xp yp /\
+      forall j mu, (S j < List.length pts)%nat -> skipped eps (nth j pts (0,0)%R) (nth (S j) pts (0,0)%R) = false -> (0 <= mu <= 1)%R ->
+        let A := nth j pts (0,0)%R in let B := nth (S j) pts (0,0)%R in
+        (d <= dist x y (fst (on_seg (fst A) (snd A) (fst B) (snd B) mu)) (snd (on_seg (fst A) (snd A) (fst B) (snd B) mu)))%R.
+Proof.
+  intros Hb Hg d xp yp i E. rewrite (gen_proj_polyligne_eq RNum inf eps x y pts Hb) in E.
+  pose proof (C20_polyline_partial eps pts x y Hg) as H.
+  destruct (Geom.proj_polyligne RNum eps pts x y) as [[[[d' xp'] yp'] i']|]; cbn [embed] in E; [|discriminate].
+  injection E as -> -> -> ->. exact H.
+Qed.
+
+(* the hypothesis is satisfiable: binary64 instance, sentinel +infinity, a three-vertex polyline *)
+Example below_sentinel_somewhere : below_sentinel FNum infinity 0%float 1%float [(0, 0); (2, 1); (4, 0)]%float.
+Proof. repeat constructor. Qed.
+Example gen_proj_polyligne_runs :
+  gen_proj_polyligne FNum infinity 0x1.cd2b297d889bcp-54%float [0; 2; 4]%float [0; 1; 0]%float 4%float 3%float
+  = embed infinity (Geom.proj_polyligne FNum 0x1.cd2b297d889bcp-54%float [(0, 0); (2, 1); (4, 0)]%float 4%float 3%float).
+Proof. vm_compute. reflexivity. Qed.
+
 Print Assumptions gen_distance_to_segment_nearest.
 Print Assumptions gen_proj_segment_sound.
+Print Assumptions gen_proj_polyligne_eq.
+Print Assumptions gen_proj_polyligne_nearest.
